@@ -7,7 +7,36 @@ ROOT = Path(__file__).resolve().parent.parent
 BASELINE_OFF = ("cd /repo && env -u MDPAX_VERIF JAX_PLATFORMS=cpu /venv/bin/python -m pytest -ra -q -p no:cacheprovider "
                 "--timeout=900 --continue-on-collection-errors")
 
+def _mdp(text, note, technique, design):
+    return dict(category="exploration", text=text, note=note, technique=technique, design=design)
+
+
 CHECKS = {
+    "C01": _mdp("Generated finite MDPs x solver configurations (VI, PI, semi-async; both tests; 1-3 emulated devices) run to "
+                "convergence and judged against exact V* / V_pi (linear solves) and the a-priori bounds of the documented "
+                "stopping rules. Sampling only: no claim outside the generated cases.",
+                "Trusts numpy linear algebra; bounds re-derived from the documented thresholds; tolerance 1e-9 relative.",
+                "Hypothesis generated MDPs, exact-solution oracle (Howard PI + linear solves) with a-priori error bounds", "2/C01"),
+    "C02": _mdp("Generated MDPs x arbitrary (V, gamma) pairs: one sweep compared state by state with a numpy Bellman backup; "
+                "greedy policy validity; shift / monotonicity / contraction laws on the implementation's outputs.",
+                "A sweep is observed through documented attributes (values, gamma, solve(1)); self-checked per case.",
+                "Hypothesis generated MDPs and value vectors, numpy reference backup + metamorphic relations", "2/C02"),
+    "C05": _mdp("Generated MDPs x arbitrary injected policies: evaluation compared with a numpy replica of the documented "
+                "loop and with the exact V_pi; termination compared with the policy sequence of a stepped twin; initial policy clause.",
+                "Borderline evaluation sweeps (measure within rounding of the threshold) are dropped.",
+                "Hypothesis generated MDPs and policies, reference evaluation loop + stepped-twin differential", "2/C05"),
+    "C06": _mdp("Generated MDPs x partitions x seeds: every sweep compared with a numpy block Gauss-Seidel sweep driven by the "
+                "solver's reported layout and the hook-recorded order; permutation, freshness, reproducibility and fixed-point clauses.",
+                "The per-sweep order is observed through the guarded hook (MDPAX_VERIF=1).",
+                "Hypothesis generated schedules (partition x seed), numpy block Gauss-Seidel reference model", "2/C06"),
+    "C07": _mdp("Generated MDPs (incl. unichain periodic chains by construction) x period x gamma: stopping iteration, values, "
+                "history buffer and greedy policy against numpy VI iterates and the documented measure; gain clause against an exact gain oracle.",
+                "Discounted measure is ill-conditioned; borderline band grows with gamma^-n.",
+                "Hypothesis generated MDPs, reference VI iterates + documented measure, exact average-reward oracle", "2/C07"),
+    "C08": _mdp("Generated call histories solve(k1..km) for all five solvers judged after every call by a numpy model of the "
+                "documented stopping rule with its own sweep counter, plus a twin solver given the summed limit.",
+                "Relative VI compared modulo an additive constant; PI judged by the twin and at-most-k clauses; known finding F10 excluded and counted.",
+                "Hypothesis generated call histories, model-based oracle + split/single-call differential", "2/C08"),
     "C18": dict(
         category="exploration",
         text="Complete enumeration of a bounded box of (n_states, max_batch_size, devices) plus generated large sizes, "
@@ -56,7 +85,7 @@ def main():
             guard="MDPAX_VERIF",
             enable="checks run /venv/bin/python with PYTHONPATH=/repo/src and MDPAX_VERIF=1 (set by ./check); no build step",
             baseline_off_cmd=BASELINE_OFF,
-            source_commits=[],
+            source_commits=["7e0d7e0"],
             add_only=True,
         ),
         engines=[dict(name="vf", path="/verif/vf", serves_properties=sorted(CHECKS),
